@@ -90,11 +90,11 @@ macro_rules! table_eq {
         }
     };
 }
-// NOT REGISTERED (timeout 900 s in the final run under machine load ~25; harness kept for the next round): ob name=c_enc_table_lo props=C07,C20 kind=exhaustive fn=kuznyechik::fused_tables::fused_enc_table,kuznyechik::fused_tables::ENC_TABLE timeout=900
+// @ob name=c_enc_table_lo tier=thorough props=C07,C20 kind=exhaustive fn=kuznyechik::fused_tables::fused_enc_table,kuznyechik::fused_tables::ENC_TABLE timeout=3600
 table_eq!(c_enc_table_lo, ENC_TABLE, LS, 0, 8);
-// NOT REGISTERED (timeout 900 s in the final run under machine load ~25; harness kept for the next round): ob name=c_enc_table_hi props=C07,C20 kind=exhaustive fn=kuznyechik::fused_tables::fused_enc_table,kuznyechik::fused_tables::ENC_TABLE timeout=900
+// @ob name=c_enc_table_hi tier=thorough props=C07,C20 kind=exhaustive fn=kuznyechik::fused_tables::fused_enc_table,kuznyechik::fused_tables::ENC_TABLE timeout=3600
 table_eq!(c_enc_table_hi, ENC_TABLE, LS, 8, 16);
-// NOT REGISTERED (timeout 900 s in the final run under machine load ~25; harness kept for the next round): ob name=c_dec_table_lo props=C07,C20 kind=exhaustive fn=kuznyechik::fused_tables::fused_dec_table,kuznyechik::fused_tables::DEC_TABLE timeout=900
+// @ob name=c_dec_table_lo tier=thorough props=C07,C20 kind=exhaustive fn=kuznyechik::fused_tables::fused_dec_table,kuznyechik::fused_tables::DEC_TABLE timeout=3600
 table_eq!(c_dec_table_lo, DEC_TABLE, SLINV, 0, 8);
 // @ob name=c_dec_table_hi tier=thorough props=C07,C20 kind=exhaustive fn=kuznyechik::fused_tables::fused_dec_table,kuznyechik::fused_tables::DEC_TABLE timeout=3600
 table_eq!(c_dec_table_hi, DEC_TABLE, SLINV, 8, 16);
@@ -121,7 +121,7 @@ pub fn sum_slinv(b: &[u8; 16]) -> [u8; 16] {
 
 // The reference tables are what their definition says, for every i and every (symbolic) byte value, and therefore
 //      XOR_i LS[i][b_i] == XOR_i L(unit_i(S(b)_i))   ( == L(S(b)) by lemmas.l_l_decomp ).
-// NOT REGISTERED (timeout 900 s in the final run under machine load ~25; harness kept for the next round): ob name=c_ls_table props=C07 kind=lemma fn=bcref::kuznyechik::l timeout=900
+// @ob name=c_ls_table tier=thorough props=C07 kind=lemma fn=bcref::kuznyechik::l timeout=3600
 #[kani::proof]
 #[kani::unwind(17)]
 fn c_ls_table() {
@@ -138,7 +138,7 @@ fn c_ls_table() {
     assert!(kz::eq(&sum_ls(&b), &acc));
 }
 
-// NOT REGISTERED (timeout 900 s in the final run under machine load ~25; harness kept for the next round): ob name=c_slinv_table props=C07 kind=lemma fn=bcref::kuznyechik::l_inv timeout=900
+// @ob name=c_slinv_table tier=thorough props=C07 kind=lemma fn=bcref::kuznyechik::l_inv timeout=3600
 #[kani::proof]
 #[kani::unwind(17)]
 fn c_slinv_table() {
